@@ -47,6 +47,9 @@ type step struct {
 	Y   bool      `json:"y"` // the statement names its first column twice
 	// the row is the second row of a two-row INSERT whose first row the table accepts (ValueStore!PutTwo)
 	Guard bool `json:"guard"`
+	// restart: the process dies instead of shutting down (nothing is flushed or closed in order; the values come back
+	// from the log records)
+	Crash bool `json:"crash"`
 }
 
 type request struct {
@@ -536,7 +539,9 @@ func run(req request) result {
 				return result{Err: "evict: " + err.Error()}
 			}
 		case "restart":
-			if err := protect(sess.Close); err != nil {
+			if s.Crash {
+				storage.VerifAbandon(sess.RelationService)
+			} else if err := protect(sess.Close); err != nil {
 				sr.Err = "close: " + err.Error()
 			}
 			if err := protect(storage.InitStorage); err != nil {
